@@ -8,6 +8,22 @@ BASE = "cd /repo && /venv/bin/python -m pytest -ra -q -p no:cacheprovider --time
 
 # id -> dict(level, text, note, technique, design_ref, engine)
 CLAIMS = {
+ "C02": dict(
+  level="model_checking",
+  text="Wire.tla is an executable reference semantics of the description language written from the CDDL of the SUIT drafts and "
+       "RFC 9052 (second translator): Wire(desc) yields the bytes, with the digests the tool must compute as holes that name "
+       "exactly which wrapped bytes are hashed. Wire_MC checks the encoder itself at every CBOR width boundary on limbs "
+       "(shortest heads, injective policy bitfield) and enumerates all 419 registry atoms (22 commands x argument shapes, 14 "
+       "parameters x variants, algorithms, policy subsets, comparators, text keys, integer/length boundaries up to 2^64-1); "
+       "every atom in a minimal envelope, seeded descriptions over the whole grammar (nesting, recipients, member order), the "
+       "repository example and the generator shapes of the other checks are created by the real tool and TLC compares "
+       "byte for byte (MatchJudge), holes against hashlib over the actual spans.",
+  note="Trusted: TLC, the author's transcription of the CDDL (validated on the repository's example and all generator shapes "
+       "before use), hashlib, own CBOR reader. Excluded forms (F7a): unsevered text map in the manifest, suit-delegation; version "
+       "strings (C20), file/envelope sugar (C05) are resolved or skipped. Known finding O1 (CWT payload emitted as a bare map) is "
+       "pinned in known_findings.json.",
+  technique="TLA+ reference encoder (Wire.tla) as second translator + TLC enumeration of all registry atoms and boundary values + TLC byte-for-byte comparison (trace validation) of the real create output",
+  design_ref="DESIGN.md 4.1-4.3, 5 (C02)", engine="tlc"),
  "C03": dict(
   level="model_checking",
   text="Tool_MC explores the artifact store under all command sequences (sign, sign remove-old, extract, cache, sever, round "
